@@ -42,8 +42,14 @@ func Init() {
 		}
 		simhook.OpenStorageFn = openStorage
 	})
-	// process-global price table: a run that changes prices on chain must not
-	// leak them into the next run of this worker process
+	ResetProcessGlobals()
+}
+
+// ResetProcessGlobals puts process-global state of the node back to what a
+// freshly started process has: the NeoVM price table. Called at the start of
+// every run (a run that changes prices on chain must not leak them into the
+// next run of this worker process) and whenever a simulated node (re)starts.
+func ResetProcessGlobals() {
 	for k, v := range sneovm.INIT_GAS_TABLE {
 		sneovm.GAS_TABLE.Store(k, v)
 	}
